@@ -243,17 +243,18 @@ def _evaluate(sc, lb):
         nontrivial = True
     if len(cleared) != len(lb.clients) * n_closes:
         raise Violation("cleared-market-count", (), "%d cleared-market summaries for %d clients and %d closing updates" % (len(cleared), len(lb.clients), n_closes), sc)
-    for client, ev in zip(lb.clients, cleared[-len(lb.clients):]):  # the summaries of the last closing update
+    for ci, (client, ev) in enumerate(zip(lb.clients, cleared[-len(lb.clients):])):  # the summaries of the last closing update
         cm = ev.event.orders[0]
         cnt, tot, _ = per_client.get(client.username, [0, F(0), 0.0])
         exp_profit = round(float(tot), 2)
-        exp_comm = round(max(exp_profit * client.commission_base, 0), 2)
+        rate = sc["clients"][ci].get("commission", 0.05)  # the rate the client was CONFIGURED with (0 is a rate)
+        exp_comm = round(max(exp_profit * rate, 0), 2)
         if cm.bet_count != cnt or abs(cm.profit - exp_profit) > 1e-9:
             raise Violation("cleared-summary", ("count" if cm.bet_count != cnt else "profit",),
                             "client %s: summary betCount=%s profit=%s, matched orders %d sum %s" % (client.username, cm.bet_count, cm.profit, cnt, exp_profit), sc)
         if abs(cm.commission - exp_comm) > 0.0051 or (cm.profit <= 0 and cm.commission != 0):
             raise Violation("cleared-commission", ("on-loss" if cm.profit <= 0 else "amount",),
-                            "client %s: commission %s on profit %s at rate %s" % (client.username, cm.commission, cm.profit, client.commission_base), sc)
+                            "client %s: commission %s on profit %s at the configured rate %s" % (client.username, cm.commission, cm.profit, rate), sc)
         if cnt:
             classes.add("cleared-with-orders")
         if len(lb.clients) > 1:
